@@ -11,7 +11,7 @@ from engine.cfg import stmt_of
 from engine.dataflow import target_names, assigned_value, stmt_defs
 from engine.srcmodel import walk_shallow, norm, parent
 from engine.util import call_name, contains, in_body
-from ._c01_util import (loads, load_ids, read_reserved, key_templates, literal_pieces,
+from ._c01_util import (alias_root, loads, load_ids, read_reserved, key_templates, literal_pieces,
                         dict_key_exprs, template_holes, always_raises)
 from .c01 import r4_fresh_name_generator, _bind_args, _view, _plain
 
@@ -38,6 +38,10 @@ EXPLANATION = (
     "constant, set(...)/frozenset(...) of characters, also inside a private helper the scanner calls) contain every operator "
     "character of the equation grammar, and var_in_expression reads the same set.  "
     "R5 a constant right-hand side is inlined with a round-trip-exact literal.  "
+    "R6 parse_equations decides whether an entry `node/op/var` of equation_args belongs to the operator scope `node/op` by "
+    "comparing the '/'-separated path components before the last one with the scope's components (list equality, equality of "
+    "the '/'-joined head, or a prefix test with the scope extended by the separator); a prefix / sub-string / leading-characters "
+    "test on the joined strings is a violation (scope `p/rate` would capture `p/rate_slow/tau`).  "
     "NOT decided: values; names that collide only through equality of two user-chosen names (source variable named like the "
     "target variable of one edge); collisions inside generated operators between two user-derived templates."
 )
@@ -851,10 +855,221 @@ def single_def_value_local(ctx, f, n):
     return single_def_value(ctx, f, n)
 
 
+# ================================================================================================
+# R6 a variable belongs to an operator scope iff its path components before the last equal the scope's components
+# ================================================================================================
+
+PARSER_REL = "pyrates/backend/parser.py"
+SEP = "/"
+
+
+def _path_shape(ctx, f, e: ast.AST, roles, depth: int = 0) -> Optional[str]:
+    """What an expression of the scope matcher denotes, in terms of the variable key K (`node/op/var`) and the scope S (`node/op`):
+    'K', 'S' (the strings), 'Ksplit' / 'Ssplit' (their lists of path components), 'Khead_list' / 'Khead_str' (the components of K
+    before the last one, as list / as '/'-joined string), 'Klast', 'S/' (the scope extended by the separator), 'K[:len(S)]'.
+    None = something else.  `roles` maps loop statements to the role of their targets."""
+    if depth > 8 or e is None:
+        return None
+    e = strip_calls(e)
+    if isinstance(e, ast.Name):
+        defs = ctx.rd(f).defs_reaching(e)
+        if len(defs) != 1:
+            return None
+        d = defs[0]
+        if d in roles:
+            return roles[d].get(e.id)
+        if isinstance(d, ast.arguments):
+            return None
+        v = assigned_value(d, e.id)
+        if v is not None:
+            return _path_shape(ctx, f, v, roles, depth + 1)
+        if isinstance(d, ast.Assign) and len(d.targets) == 1 and isinstance(d.targets[0], (ast.Tuple, ast.List)):
+            elts = d.targets[0].elts
+            src = _path_shape(ctx, f, d.value, roles, depth + 1)
+            # *head, last = K.split('/')
+            if len(elts) == 2 and isinstance(elts[0], ast.Starred) and isinstance(elts[0].value, ast.Name) and isinstance(elts[1], ast.Name) \
+                    and src == "Ksplit":
+                return "Khead_list" if elts[0].value.id == e.id else ("Klast" if elts[1].id == e.id else None)
+            # head, last = K.rsplit('/', 1)
+            if len(elts) == 2 and all(isinstance(x, ast.Name) for x in elts) and src == "Krsplit1":
+                return "Khead_str" if elts[0].id == e.id else "Klast"
+        return None
+    if isinstance(e, ast.Call) and isinstance(e.func, ast.Attribute):
+        recv = _path_shape(ctx, f, e.func.value, roles, depth + 1)
+        args = e.args
+        is_sep = lambda x: isinstance(x, ast.Constant) and x.value == SEP
+        if e.func.attr == "split" and len(args) == 1 and is_sep(args[0]):
+            return {"K": "Ksplit", "S": "Ssplit", "Khead_str": "Khead_list"}.get(recv)
+        if e.func.attr == "rsplit" and len(args) == 2 and is_sep(args[0]) and isinstance(args[1], ast.Constant) and args[1].value == 1 \
+                and recv == "K":
+            return "Krsplit1"
+        if e.func.attr == "join" and is_sep(e.func.value) and len(args) == 1:
+            inner = _path_shape(ctx, f, args[0], roles, depth + 1)
+            return {"Khead_list": "Khead_str", "Ssplit": "S", "Ksplit": "K"}.get(inner)
+        return None
+    if isinstance(e, ast.Subscript):
+        base = _path_shape(ctx, f, e.value, roles, depth + 1)
+        sl = e.slice
+        minus1 = lambda x: isinstance(x, ast.UnaryOp) and isinstance(x.op, ast.USub) and isinstance(x.operand, ast.Constant) and x.operand.value == 1
+        if isinstance(sl, ast.Slice) and sl.step is None and (sl.lower is None or (isinstance(sl.lower, ast.Constant) and sl.lower.value == 0)):
+            if minus1(sl.upper) and base == "Ksplit":
+                return "Khead_list"
+            if isinstance(sl.upper, ast.Call) and call_name(sl.upper) == "len" and len(sl.upper.args) == 1 and base == "K" \
+                    and _path_shape(ctx, f, sl.upper.args[0], roles, depth + 1) == "S":
+                return "K[:len(S)]"
+            return None
+        if base == "Krsplit1" and isinstance(sl, ast.Constant) and sl.value == 0:
+            return "Khead_str"
+        if base in ("Ksplit", "Krsplit1") and (minus1(sl) or (base == "Krsplit1" and isinstance(sl, ast.Constant) and sl.value == 1)):
+            return "Klast"
+        return None
+    if isinstance(e, ast.BinOp) and isinstance(e.op, ast.Add):
+        l, r = _path_shape(ctx, f, e.left, roles, depth + 1), e.right
+        if l == "S" and isinstance(r, ast.Constant) and r.value == SEP:
+            return "S/"
+        return None
+    if isinstance(e, ast.JoinedStr) and len(e.values) == 2 and isinstance(e.values[0], ast.FormattedValue) \
+            and isinstance(e.values[1], ast.Constant) and e.values[1].value == SEP \
+            and _path_shape(ctx, f, e.values[0].value, roles, depth + 1) == "S":
+        return "S/"
+    return None
+
+
+def strip_calls(e: ast.AST) -> ast.AST:
+    """list(x) / tuple(x) / str(x) -> x"""
+    while isinstance(e, ast.Call) and isinstance(e.func, ast.Name) and e.func.id in ("list", "tuple", "str") and len(e.args) == 1 \
+            and not e.keywords:
+        e = e.args[0]
+    return e
+
+
+def _path_roots(ctx, f, e: ast.AST, roles, depth: int = 0) -> Set[str]:
+    """{'K', 'S'}: which of the two path strings the value of `e` is computed from."""
+    out: Set[str] = set()
+    if depth > 5:
+        return out
+    for n in loads(e):
+        for d in ctx.rd(f).defs_reaching(n):
+            if d in roles:
+                r = roles[d].get(n.id)
+                if r in ("K", "S"):
+                    out.add(r)
+            elif isinstance(d, (ast.Assign, ast.AnnAssign)) and d.value is not None:
+                out |= _path_roots(ctx, f, d.value, roles, depth + 1)
+    return out
+
+
+def _classify_scope_test(ctx, f, t: ast.AST, roles):
+    """('ok'|'bad', text) for a test that relates the variable key to the scope; None when it is not understood."""
+    while isinstance(t, ast.UnaryOp) and isinstance(t.op, ast.Not):
+        t = t.operand
+    sh = lambda x: _path_shape(ctx, f, x, roles)
+    if isinstance(t, ast.Compare) and len(t.ops) == 1:
+        l, r, op = sh(t.left), sh(t.comparators[0]), t.ops[0]
+        if isinstance(op, (ast.Eq, ast.NotEq)):
+            if {l, r} in ({"Khead_list", "Ssplit"}, {"Khead_str", "S"}):
+                return "ok", "the path components of the key before the last one are compared with the scope's components for equality"
+            if {l, r} == {"K[:len(S)]", "S"}:
+                return "bad", "the leading characters of the '/'-joined key are compared with the scope string"
+        if isinstance(op, (ast.In, ast.NotIn)) and l == "S" and r == "K":
+            return "bad", "the scope string is looked up as a sub-string of the '/'-joined key"
+        return None
+    if isinstance(t, ast.Call) and isinstance(t.func, ast.Attribute) and t.func.attr in ("startswith", "find", "index", "count") \
+            and len(t.args) >= 1 and sh(t.func.value) in ("K", "Khead_str"):
+        a = sh(t.args[0])
+        if t.func.attr == "startswith" and a == "S/":
+            return "ok", "the key is tested for the prefix `<scope>/` (scope extended by the separator)"
+        if a == "S":
+            return "bad", f"`{t.func.attr}` matches the scope string as a prefix / sub-string of the '/'-joined key"
+    return None
+
+
+def r6_scope_membership_by_path_components(ctx, rid):
+    """parse_equations collects, for every (equation, scope) pair, the entries of equation_args that belong to the operator
+    `scope`.  Keys are '/'-joined paths `node/op/var`; a variable belongs to the scope iff its components before the last equal
+    the scope's components.  A prefix or sub-string test on the joined strings also captures the variables of an operator
+    whose name merely starts with this operator's name (`p/rate` vs `p/rate_slow/tau`): the equation is then parsed with a
+    foreign variable of the same short name."""
+    f0 = ctx.repo.get_func(PARSER_REL, "parse_equations")
+    f = _view(ctx, f0)
+    params = [p_ for p_ in f0.params]
+    ctx.require(len(params) >= 2, f"{rid}: signature of parse_equations changed")
+    eqs_p, args_p = params[0], params[1]
+    roles: Dict[object, Dict[str, str]] = {}
+    for L in [n for n in walk_shallow(f.node) if isinstance(n, ast.For)]:
+        it = L.iter
+        src = alias_root(ctx, f, strip_calls(it), wrappers=("list", "tuple"))
+        if isinstance(src.expr, ast.Name) and src.expr.id == eqs_p and src.defstmt is None and isinstance(L.target, (ast.Tuple, ast.List)) \
+                and len(L.target.elts) == 2 and isinstance(L.target.elts[1], ast.Name):
+            roles[L] = {L.target.elts[1].id: "S"}
+        reads_args = any(isinstance(n, ast.Name) and _reads_param(ctx, f, n, args_p) for n in ast.walk(it))
+        if reads_args and any(isinstance(c, ast.Call) and call_name(c) == "items" for c in ast.walk(it)) \
+                and isinstance(L.target, (ast.Tuple, ast.List)) and len(L.target.elts) == 2 and isinstance(L.target.elts[0], ast.Name):
+            roles[L] = {L.target.elts[0].id: "K"}
+        elif reads_args and isinstance(L.target, ast.Name) and not any(isinstance(c, ast.Call) and call_name(c) in ("items", "values")
+                                                                       for c in ast.walk(it)):
+            roles.setdefault(L, {L.target.id: "K"})
+    k_loops = [L for L, r in roles.items() if "K" in r.values()]
+    s_loops = [L for L, r in roles.items() if "S" in r.values()]
+    if not k_loops or not s_loops:
+        raise AnalysisError(f"{rid}: loops over the (equation, scope) pairs / over the entries of equation_args not found in parse_equations")
+    n = 0
+    for L in k_loops:
+        if not any(contains(sl, L) for sl in s_loops):
+            continue
+        tests = []
+        for node in walk_shallow(L):
+            t = None
+            if isinstance(node, (ast.If, ast.While, ast.IfExp)):
+                t = node.test
+            elif isinstance(node, ast.comprehension):
+                continue
+            if t is not None and in_body(L, node) and _path_roots(ctx, f, t, roles) >= {"K", "S"}:
+                tests.append((node, t))
+        for node, t in tests:
+            parts = t.values if isinstance(t, ast.BoolOp) else [t]
+            verdicts = [(p_, _classify_scope_test(ctx, f, p_, roles)) for p_ in parts if _path_roots(ctx, f, p_, roles) >= {"K", "S"}]
+            st = stmt_of(ctx.cfg(f), node)
+            text = _plain(norm(st))
+            known = [v for _p, v in verdicts if v is not None]
+            bad = [v for v in known if v[0] == "bad"]
+            if isinstance(t, ast.BoolOp) and isinstance(t.op, ast.Or):
+                # membership is granted by any operand: one prefix / sub-string operand suffices for a violation
+                decided = bool(bad) or (known and len(known) == len(verdicts))
+            elif isinstance(t, ast.BoolOp):
+                # conjuncts narrow each other: a component-wise (or separator-extended) conjunct suffices, a prefix conjunct
+                # may be repaired by another one that is not understood
+                decided = bool(known) and not bad
+                verdicts = [(p_, v) for p_, v in verdicts if v is not None]
+            else:
+                decided = len(known) == 1
+            if not decided:
+                raise AnalysisError(f"{rid}: parse_equations: `{text}` relates the variable key to the operator scope in an unrecognised form")
+            n += 1
+            verdicts = [(p_, v) for p_, v in verdicts if v is not None]
+            label = "operator scope membership of a variable key"
+            if bad:
+                ctx.violation(rid, f0, st, f"`{text}`: {bad[0][1]}; scope `p/rate` then also captures `p/rate_slow/tau`, so an operator whose "
+                                           f"name is a prefix of another operator's name is parsed with that operator's variables "
+                                           f"(membership must compare the '/'-separated path components)", label=label)
+            else:
+                ctx.ok(rid, f0, st, f"`{text}`: {verdicts[0][1][1]}", label=label)
+    ctx.require(n >= 1, f"{rid}: no test that relates a variable key of equation_args to the operator scope found in parse_equations")
+
+
+def _reads_param(ctx, f, n: ast.Name, param: str) -> bool:
+    if not isinstance(n.ctx, ast.Load):
+        return False
+    r = alias_root(ctx, f, n, wrappers=("list", "tuple", "dict"))
+    return isinstance(r.expr, ast.Name) and r.expr.id == param and r.defstmt is None
+
+
+
 RULES = [
     ("C05-R1", r4_fresh_name_generator, 6),
     ("C05-R2", r2_generated_names_never_overwrite, 3),
     ("C05-R3", r3_reserved_parts_cover_generated_names, 18),
     ("C05-R4", r4_boundary_vocabulary, 1),
     ("C05-R5", r5_literals_inlined_exactly, 1),
+    ("C05-R6", r6_scope_membership_by_path_components, 1),
 ]
